@@ -921,6 +921,35 @@ def expand_ifexps(tree, ref):
 
 
 # ---------------------------------------------------------------------------------------------- 7. constant-bound loops
+def _const_items(it):
+    """constant nodes iterated by `for x in range(K)` or `for x in (c1, c2, ..)`; None if not such a loop"""
+    r = _const_range(it)
+    if r is not None:
+        return [ast.Constant(value=k) for k in r]
+    if isinstance(it, (ast.Tuple, ast.List)) and 1 <= len(it.elts) <= 8 and all(isinstance(e, ast.Constant) for e in it.elts):
+        return [copy.deepcopy(e) for e in it.elts]
+    return None
+
+
+class _AttrCalls(ast.NodeTransformer):
+    """getattr(x, 'name') -> x.name ; setattr(x, 'name', v) as a statement -> x.name = v   (literal identifier names only)"""
+
+    def visit_Call(self, n):
+        self.generic_visit(n)
+        if isinstance(n.func, ast.Name) and n.func.id == 'getattr' and len(n.args) == 2 and not n.keywords and isinstance(n.args[1], ast.Constant) \
+                and isinstance(n.args[1].value, str) and n.args[1].value.isidentifier():
+            return ast.copy_location(ast.Attribute(value=n.args[0], attr=n.args[1].value, ctx=ast.Load()), n)
+        return n
+
+    def visit_Expr(self, n):
+        self.generic_visit(n)
+        c = n.value
+        if isinstance(c, ast.Call) and isinstance(c.func, ast.Name) and c.func.id == 'setattr' and len(c.args) == 3 and not c.keywords and \
+                isinstance(c.args[1], ast.Constant) and isinstance(c.args[1].value, str) and c.args[1].value.isidentifier():
+            return ast.copy_location(ast.Assign(targets=[ast.Attribute(value=c.args[0], attr=c.args[1].value, ctx=ast.Store())], value=c.args[2], lineno=n.lineno), n)
+        return n
+
+
 def _const_range(it):
     if isinstance(it, ast.Call) and isinstance(it.func, ast.Name) and it.func.id == 'range' and 1 <= len(it.args) <= 3 and not it.keywords:
         try:
@@ -950,7 +979,7 @@ def unroll_loops(tree, ref):
                     for i, st in enumerate(block):
                         if not isinstance(st, ast.For) or st.orelse or not isinstance(st.target, ast.Name):
                             continue
-                        vals = _const_range(st.iter)
+                        vals = _const_items(st.iter)
                         if vals is None or _shape_txt(st) in keep:
                             continue
                         v = st.target.id
@@ -964,8 +993,8 @@ def unroll_loops(tree, ref):
                             continue
                         new = []
                         for k in vals:
-                            sub = _Subst({v: ast.Constant(value=k)})
-                            new.extend(sub.visit(copy.deepcopy(s_)) for s_ in st.body)
+                            sub = _Subst({v: k})
+                            new.extend(_AttrCalls().visit(sub.visit(copy.deepcopy(s_))) for s_ in st.body)
                         block[i:i + 1] = new
                         changed = True
                         total += 1
